@@ -84,6 +84,22 @@ DIRECTED = [
      {"nc_d-400.no_consumer_use_tax": "no", "nc_d-400_consumer_use_tax_wkst.full_records": "yes", "nc_d-400_consumer_use_tax_wkst.out_of_state_purchases": "1000.00",
       "nc_d-400_consumer_use_tax_wkst.county_tax_pct": "0.07", "nc_d-400_consumer_use_tax_wkst.other_state_sales_tax": "80.00",
       "w-2:0.box_1": "70000.00", "w-2:0.box_2": "8000.00", "w-2:0.box_16": "70000.00", "w-2:0.box_17": "3000.00"}),
+    # the same with nothing paid to another state (the whole NC tax is due), 2022 names of the two half-years included
+    ({"status": "Single", "dependents": 0, "wage_scale": 60000, "nc": True},
+     {"1098": 1},
+     {"nc_d-400.no_consumer_use_tax": "no", "nc_d-400_consumer_use_tax_wkst.full_records": "yes", "nc_d-400_consumer_use_tax_wkst.out_of_state_purchases": "1000.00",
+      "nc_d-400_consumer_use_tax_wkst.out_of_state_purchases_pre_oct": "600.00", "nc_d-400_consumer_use_tax_wkst.out_of_state_purchases_post_oct": "400.00",
+      "nc_d-400_consumer_use_tax_wkst.county_tax_pct": "0.07", "nc_d-400_consumer_use_tax_wkst.county_tax_pct_pre_oct": "0.07",
+      "nc_d-400_consumer_use_tax_wkst.county_tax_pct_post_oct": "0.0725", "nc_d-400_consumer_use_tax_wkst.other_state_sales_tax": "0.00",
+      "w-2:0.box_1": "70000.00", "w-2:0.box_2": "8000.00", "w-2:0.box_16": "70000.00", "w-2:0.box_17": "3000.00"}),
+    # little tax, a child, and foreign tax (credited without Form 1116) above that tax: the credit limit for the child credit is zero, not negative
+    # (an OTHER dependent: the refundable part of the child credit is not implemented for 2022 / 2023; interest above the limit that
+    # rules the earned income credit out, which is not implemented either)
+    ({"status": "HeadOfHousehold", "dependents": 1, "ctc": [False, False, False, False], "under6": [False, False, False, False], "wage_scale": 20000,
+      "foreign_tax": True},
+     {"1099-int": 1},
+     {"w-2:0.box_1": "10000.00", "w-2:0.box_2": "300.00", "1099-int:0.box_1": "11500.00", "1099-int:0.box_6": "290.00", "1040.dependent_0_odc": "yes",
+      "1040_s8812.advance_ctc_payments": "0.00", "1040_s3.other_foreign_gross_income": "no"}),
     # a high earner (Additional Medicare Tax, Form 8959) with withholding that is not from a W-2
     ({"status": "Single", "dependents": 0, "wage_scale": 230000},
      {}, {"w-2:0.box_1": "230000.00", "w-2:0.box_3": "147000.00", "w-2:0.box_5": "230000.00", "w-2:0.box_2": "45000.00", "w-2:0.box_6": "3605.00",
